@@ -119,3 +119,11 @@ func Panics(f func()) (p bool) {
 	f()
 	return false
 }
+
+// B2U8 is the wire encoding of a bool (engine: ite, no fork).
+func B2U8(b bool) uint8 {
+	if b {
+		return 1
+	}
+	return 0
+}
